@@ -179,7 +179,26 @@ class Ctx:
         self.results.append(GoalResult(gid, status, backend, seconds, detail, model, solver, kind))
         return status
 
-    def sides(self, sub, sym, pre, only=None):
+    def refute_by_execution(self, thunk_factory, pins, names):
+        """run the extracted code concretely (IEEE doubles) at candidate inputs and collect libm domain events.
+        Used only to REFUTE side obligations the solver left unknown; every refutation is replayed on the real code."""
+        from .interp import Interp
+        from .values import EvalError
+        events = {}
+        for pin in pins or []:
+            it = Interp(self.w, mode='float')
+            args = [float(pin[n]) for n in names]
+            try:
+                it.run_single(lambda: thunk_factory(it, args))
+            except EvalError:
+                continue
+            except Exception:
+                continue
+            for desc, val in it.domain_events:
+                events.setdefault(desc, (pin, val))
+        return events
+
+    def sides(self, sub, sym, pre, only=None, pins=None, timeout_ms=None, exec_events=None):
         """discharge the side obligations (denominator != 0, sqrt/log domains) of one path"""
         n = 0
         ok = True
@@ -188,7 +207,15 @@ class Ctx:
                 continue
             n += 1
             st = self.prove('%s.side%d' % (sub, n), list(pre) + list(guards) + list(sym.axioms), cond if is_sym(cond) else z3.BoolVal(bool(cond)),
-                            kind='side:' + desc, check_vacuity=False)
+                            kind='side:' + desc, check_vacuity=False, pins=pins, timeout_ms=timeout_ms)
+            if st == UNDECIDED and exec_events and desc in exec_events:
+                pin, val = exec_events[desc]
+                r = self.results[-1]
+                r.status = FAILED
+                r.detail = 'solver unknown; refuted by concrete execution of the extracted code: %s with argument %r' % (desc, val)
+                r.solver = 'concrete execution (float interpreter)'
+                r.model = {'_float': {k: float(v) for k, v in pin.items()}}
+                st = FAILED
             ok = ok and st == PROVED
         return ok
 
